@@ -332,6 +332,7 @@ def run_solve_t(Model, case):
         obs['errstate_before'] = dict(np.geterr())
         # the caller's own warnings set-up (process-wide filters such as -W error) is none of the solver's business: the outcome is the same
         warnings.simplefilter(case.get('caller_filter') or 'ignore')
+        obs['filters_before'] = [(f[0], repr(f[1]), f[2].__name__, repr(f[3]), f[4]) for f in warnings.filters]
         try:
             if case.get('entry') == 'solve_period':
                 obs['ret'] = m.solve_period(m.span[tn], **kw)
@@ -344,6 +345,7 @@ def run_solve_t(Model, case):
             obs['cause'] = type(e.__cause__).__name__ if e.__cause__ is not None else None
             obs['msg'] = str(e)[:200]
         obs['errstate_after'] = dict(np.geterr())
+        obs['filters_after'] = [(f[0], repr(f[1]), f[2].__name__, repr(f[3]), f[4]) for f in warnings.filters]
     log = m.__dict__['v_log']
     obs['status'] = str(m.status[tn])
     obs['iterations'] = int(m.iterations[tn])
@@ -391,6 +393,10 @@ def compare(case, want, obs):
         probs.append(('solved-flag', f'returned True with status {obs["status"]!r}'))
     if obs.get('kind') == 'ret' and obs['status'] == '.' and obs.get('ret') is not True:
         probs.append(('solved-flag', f'status "." but returned {obs.get("ret")!r}'))
+    if obs.get('filters_after') != obs.get('filters_before'):
+        extra = [f for f in obs.get('filters_after', []) if f not in obs.get('filters_before', [])][:2]
+        gone = [f for f in obs.get('filters_before', []) if f not in obs.get('filters_after', [])][:2]
+        probs.append(('process-wide-state-changed', f'the call left the caller\'s warnings filters changed: added {extra}, removed {gone} (or reordered)'))
     if obs.get('errstate_after') != obs.get('errstate_before'):
         probs.append(('process-wide-state-changed', f'the call left the caller\'s NumPy error state changed: {obs.get("errstate_before")} -> {obs.get("errstate_after")}'))
     changed = changed_cells(obs['before_state'], obs['after_state'])
